@@ -1,6 +1,6 @@
 // C15 conformance driver: serialises tensors, parameters, features, configured and fitted objects, then reads back every
 // strict prefix, the full stream and streams with one altered tensor payload byte through a tracing std::streambuf.
-//   stream_driver <out.ndjson> <seed> <scale>
+//   stream_driver <out.ndjson> <seed> <scale> [alterations per payload byte: 1 (sanitizer build) or 3]
 #include <algorithm>
 #include "problems.h"
 #include <cstring>
@@ -74,13 +74,21 @@ private:
     std::vector<req_t> m_log;
 };
 
+struct payload_t
+{
+    size_t begin, end, elem; // [begin, end) byte range of a tensor payload, size of one element
+};
+
 struct blob_t
 {
     std::string                              kind;
     std::string                              bytes;
     std::function<bool(std::istream&)>       reader;   // reads one object; returns "observationally identical to the original"
-    std::vector<std::pair<size_t, size_t>>   payloads; // [begin, end) byte ranges of tensor payloads
+    std::vector<payload_t>                   payloads; // byte ranges of tensor payloads
     std::vector<std::pair<size_t, size_t>>   headers;  // [begin, end) byte ranges of tensor headers (without dimension fields' high bytes)
+    std::vector<size_t>                      versions; // offsets of the (major, minor, patch) fields of configurable objects
+    // version-0 tensor streams only: does the payload of the given (altered) stream have the stored hash (a collision of the old, weak hash)?
+    std::function<bool(const std::string&)>  collides;
 };
 
 struct run_t
@@ -112,7 +120,7 @@ run_t read_back(const blob_t& blob, const std::string& bytes, size_t len)
 }
 
 template <class tscalar, size_t trank>
-blob_t tensor_blob(vt::Rng& rng, int64_t maxdim, bool allow_zero)
+blob_t tensor_blob(vt::Rng& rng, int64_t maxdim, bool allow_zero, bool version0 = false)
 {
     typename tensor_mem_t<tscalar, trank>::tdims dims;
     for (auto& d : dims)
@@ -155,9 +163,56 @@ blob_t tensor_blob(vt::Rng& rng, int64_t maxdim, bool allow_zero)
                (tensor->size() == 0 || std::memcmp(copy.data(), tensor->data(), sizeof(tscalar) * static_cast<size_t>(tensor->size())) == 0);
     };
     const size_t header = 4 + 4 + 4 * trank + 4 + 8;
-    blob.payloads.emplace_back(header, blob.bytes.size());
+    blob.payloads.push_back({header, blob.bytes.size(), sizeof(tscalar)});
     blob.headers.emplace_back(0, header);
+    if (version0)
+    {
+        // a stream of the previous format: version field 0, the content hashed with detail::hash (hand-built: the library writes version 1)
+        const uint32_t zero = 0U;
+        const uint64_t hash = detail::hash(tensor->data(), tensor->size());
+        std::memcpy(blob.bytes.data(), &zero, sizeof(zero));
+        std::memcpy(blob.bytes.data() + header - sizeof(hash), &hash, sizeof(hash));
+        blob.kind     = "tensor-v0" + blob.kind.substr(6);
+        blob.collides = [header, count = tensor->size()](const std::string& bytes)
+        {
+            std::vector<tscalar> content(static_cast<size_t>(count) + 1U);
+            uint64_t             stored = 0U;
+            std::memcpy(content.data(), bytes.data() + header, sizeof(tscalar) * static_cast<size_t>(count));
+            std::memcpy(&stored, bytes.data() + header - sizeof(stored), sizeof(stored));
+            return detail::hash(content.data(), count) == stored;
+        };
+    }
     return blob;
+}
+
+// version-0 tensor streams of one scalar type: small tensors of every rank (or of one rank)
+template <class tscalar>
+void tensor_blobs_v0(vt::Rng& rng, std::vector<blob_t>& blobs, int64_t reps, bool every_rank)
+{
+    for (int64_t i = 0; i < reps; ++i)
+    {
+        const auto rank = every_rank ? int64_t{0} : rng.range(1, 5);
+        if (rank == 0 || rank == 1)
+        {
+            blobs.push_back(tensor_blob<tscalar, 1>(rng, 6, i % 4 == 3, true));
+        }
+        if (rank == 0 || rank == 2)
+        {
+            blobs.push_back(tensor_blob<tscalar, 2>(rng, 4, i % 4 == 3, true));
+        }
+        if (rank == 0 || rank == 3)
+        {
+            blobs.push_back(tensor_blob<tscalar, 3>(rng, 3, i % 4 == 3, true));
+        }
+        if (rank == 0 || rank == 4)
+        {
+            blobs.push_back(tensor_blob<tscalar, 4>(rng, 2, i % 4 == 3, true));
+        }
+        if (rank == 0 || rank == 5)
+        {
+            blobs.push_back(tensor_blob<tscalar, 5>(rng, 2, i % 4 == 3, true));
+        }
+    }
 }
 
 template <class tscalar>
@@ -187,7 +242,51 @@ void locate_payload(blob_t& blob, const ttensor& tensor)
     const size_t header = 4 + 4 + 4 * ttensor::rank() + 4 + 8;
     for (size_t at = blob.bytes.find(needle); at != std::string::npos; at = blob.bytes.find(needle, at + 1))
     {
-        blob.payloads.emplace_back(at + header, at + needle.size());
+        if (std::none_of(blob.payloads.begin(), blob.payloads.end(), [&](const payload_t& p) { return p.begin == at + header; }))
+        {
+            blob.payloads.push_back({at + header, at + needle.size(), sizeof(*tensor.data())});
+        }
+    }
+}
+
+// the tensors of a (fitted) weak learner, wherever its serialised form is nested in the stream
+void locate_wlearner_payloads(blob_t& blob, const wlearner_t& wlearner)
+{
+    if (const auto* single = dynamic_cast<const single_feature_wlearner_t*>(&wlearner); single != nullptr)
+    {
+        locate_payload(blob, single->tables());
+    }
+    if (const auto* table = dynamic_cast<const table_wlearner_t*>(&wlearner); table != nullptr)
+    {
+        locate_payload(blob, table->hashes());
+        locate_payload(blob, table->hash2tables());
+    }
+    if (const auto* dtree = dynamic_cast<const dtree_wlearner_t*>(&wlearner); dtree != nullptr)
+    {
+        locate_payload(blob, dtree->tables());
+        locate_payload(blob, dtree->features());
+    }
+}
+
+// the version fields of the factory objects with the given type ids nested in the stream: <length, id, major, minor, patch>
+void locate_versions(blob_t& blob, const strings_t& ids)
+{
+    for (const auto& id : ids)
+    {
+        std::ostringstream os;
+        ::nano::write(os, id);
+        ::nano::write(os, ::nano::major_version);
+        ::nano::write(os, ::nano::minor_version);
+        ::nano::write(os, ::nano::patch_version);
+        const auto needle = os.str();
+        for (size_t at = blob.bytes.find(needle); at != std::string::npos; at = blob.bytes.find(needle, at + 1))
+        {
+            const auto offset = at + 4U + id.size();
+            if (std::find(blob.versions.begin(), blob.versions.end(), offset) == blob.versions.end())
+            {
+                blob.versions.push_back(offset);
+            }
+        }
     }
 }
 
@@ -285,6 +384,7 @@ blob_t factory_blob(const std::string& kind, const std::unique_ptr<tobject>& obj
     const auto params = object->parameters();
     blob.kind         = kind + ":" + id;
     blob.bytes        = os.str();
+    blob.versions.push_back(4U + id.size()); // <length, id> then the configurable part: major, minor, patch, parameters
     blob.reader       = [id, params, same_behaviour](std::istream& stream)
     {
         std::unique_ptr<tobject> copy;
@@ -299,7 +399,25 @@ bool same_bits(const tensor4d_t& a, const tensor4d_t& b)
     return a.dims() == b.dims() && (a.size() == 0 || std::memcmp(a.data(), b.data(), sizeof(scalar_t) * static_cast<size_t>(a.size())) == 0);
 }
 
-void emit_runs(const blob_t& blob, bool bytelevel)
+// the outcomes of reading altered streams: all of them must be failures; for version-0 tensor streams an altered content that
+// collides under the old hash may be read (the documented weakness of that format): the driver says which ones collide
+void put_alterations(const blob_t& blob, const std::string& what, const std::vector<int64_t>& outcomes, const std::vector<int64_t>& collides)
+{
+    if (outcomes.empty())
+    {
+        return;
+    }
+    if (blob.collides)
+    {
+        vt::put(vt::J("FlipsV0").s("kind", blob.kind).s("what", what).a("outcomes", outcomes).a("collides", collides));
+    }
+    else
+    {
+        vt::put(vt::J(what).s("kind", blob.kind).a("outcomes", outcomes));
+    }
+}
+
+void emit_runs(const blob_t& blob, bool bytelevel, int64_t alterations, vt::Rng& rng)
 {
     const auto           full = blob.bytes.size();
     std::vector<int64_t> outcomes;
@@ -325,20 +443,91 @@ void emit_runs(const blob_t& blob, bool bytelevel)
     }
     vt::put(vt::J("Outcomes").s("kind", blob.kind).i("full", static_cast<int64_t>(full)).a("outcomes", outcomes).b("same", same).b("consumedAll", consumed_all));
 
-    // single-byte alterations of the tensor payloads
-    std::vector<int64_t> flips;
-    for (const auto& [begin, end] : blob.payloads)
+    // single-byte alterations of the tensor payloads: one bit flipped, the next value, any other value
+    std::vector<int64_t> flips, collides;
+    for (const auto& payload : blob.payloads)
     {
-        for (size_t at = begin; at < end; ++at)
+        for (size_t at = payload.begin; at < payload.end; ++at)
         {
-            auto bytes = blob.bytes;
-            bytes[at]  = static_cast<char>(bytes[at] ^ static_cast<char>(1U << (at % 8U)));
-            flips.push_back(read_back(blob, bytes, full).outcome);
+            for (int64_t alteration = 0; alteration < alterations; ++alteration)
+            {
+                auto       bytes = blob.bytes;
+                const auto byte  = static_cast<unsigned char>(bytes[at]);
+                const auto other = alteration == 0 ? static_cast<unsigned char>(byte ^ (1U << (at % 8U))) :
+                                   alteration == 1 ? static_cast<unsigned char>(byte + 1U) :
+                                                     static_cast<unsigned char>(byte ^ static_cast<unsigned char>(rng.range(1, 255)));
+                bytes[at]        = static_cast<char>(other);
+                flips.push_back(read_back(blob, bytes, full).outcome);
+                collides.push_back(blob.collides && blob.collides(bytes) ? 1 : 0);
+            }
         }
     }
-    if (!flips.empty())
+    put_alterations(blob, "Flips", flips, collides);
+    // two elements of a payload exchanged (a checksum that ignores the order of the elements would not notice)
+    std::vector<int64_t> swaps, swap_collides;
+    for (const auto& payload : blob.payloads)
     {
-        vt::put(vt::J("Flips").s("kind", blob.kind).a("outcomes", flips));
+        const auto count = (payload.end - payload.begin) / payload.elem;
+        if (count < 2U)
+        {
+            continue;
+        }
+        std::vector<std::pair<size_t, size_t>> pairs;
+        if (alterations > 1)
+        {
+            for (size_t i = 0; i + 1U < count; ++i)
+            {
+                pairs.emplace_back(i, i + 1U);
+                pairs.emplace_back(i, static_cast<size_t>(rng.range(0, static_cast<int64_t>(count) - 1)));
+            }
+        }
+        else
+        {
+            for (int k = 0; k < 3; ++k)
+            {
+                pairs.emplace_back(static_cast<size_t>(rng.range(0, static_cast<int64_t>(count) - 1)), static_cast<size_t>(rng.range(0, static_cast<int64_t>(count) - 1)));
+            }
+        }
+        for (const auto& [i, j] : pairs)
+        {
+            auto  bytes = blob.bytes;
+            auto* pi    = bytes.data() + payload.begin + i * payload.elem;
+            auto* pj    = bytes.data() + payload.begin + j * payload.elem;
+            if (i == j || std::memcmp(pi, pj, payload.elem) == 0)
+            {
+                continue; // equal elements: the same stream
+            }
+            std::swap_ranges(pi, pi + payload.elem, pj);
+            swaps.push_back(read_back(blob, bytes, full).outcome);
+            swap_collides.push_back(blob.collides && blob.collides(bytes) ? 1 : 0);
+        }
+    }
+    put_alterations(blob, "Swaps", swaps, swap_collides);
+    // the version fields of configurable objects altered to a newer version: the object cannot be read
+    std::vector<int64_t> newer;
+    for (const auto offset : blob.versions)
+    {
+        int32_t version[3] = {0, 0, 0};
+        std::memcpy(version, blob.bytes.data() + offset, sizeof(version));
+        for (int k = 0; k < 4; ++k)
+        {
+            auto altered = std::array<int32_t, 3>{version[0], version[1], version[2]};
+            if (k < 3)
+            {
+                altered[static_cast<size_t>(k)] += static_cast<int32_t>(k == 2 ? rng.range(1, 3) : 1);
+            }
+            else
+            {
+                altered[0] = 0x7F000000;
+            }
+            auto bytes = blob.bytes;
+            std::memcpy(bytes.data() + offset, altered.data(), sizeof(version));
+            newer.push_back(read_back(blob, bytes, full).outcome);
+        }
+    }
+    if (!newer.empty())
+    {
+        vt::put(vt::J("VersionFlips").s("kind", blob.kind).a("outcomes", newer));
     }
     // low-bit alterations of tensor headers: detection is not promised, only survival
     int64_t nheader = 0;
